@@ -272,6 +272,8 @@ def exec_case(kind, payload):
     isolate.warm(sorted(ampgen.PID))
     if kind == "shape":
         return check_shape(payload)
+    if kind == "choices-file":
+        return [(a + "@filename", b) for a, b in [(x[2].replace("@filename", ""), x[3]) for x in work_file_entry([tuple(payload["choices"])])["fails"]]]
     return check_choices(tuple(payload["choices"]))
 
 
@@ -283,6 +285,42 @@ def work(items):
             fails.append(("choices", {"choices": list(choices)}, s, d, ndev))
         outs.add("F" if f else short_hash(build(choices)[1]["amplitudes"]))
     return {"fails": fails, "outcomes": outs, "traces": len(items)}
+
+
+def observe_file(text):
+    """The same reader given a file name instead of the text (also with CRLF line ends kept: binary write)."""
+    import os
+    import tempfile
+    fd, path = tempfile.mkstemp(suffix=".opt", prefix="c17_")
+    with os.fdopen(fd, "wb") as f:
+        f.write(text.encode("utf8"))
+    try:
+        from decaylanguage.modeling.amplitudechain import AmplitudeChain
+        try:
+            lines, pars, consts, states = AmplitudeChain.read_ampgen(path)
+        except Exception as e:  # noqa: BLE001
+            return ("exc", type(e).__name__, str(e)[:300])
+        return ("ok", {
+            "event_type": [int(p.pdgid) for p in states],
+            "amplitudes": [(sig(ln), complex(ln.amp)) for ln in lines],
+            "parameters": [(name, bool(r.fix), float(r.value), float(r.error)) for name, r in pars.iterrows()],
+            "constants": [(name, float(r.value)) for name, r in consts.iterrows()],
+            "cartesian": bool(AmplitudeChain.cartesian),
+        })
+    finally:
+        os.unlink(path)
+
+
+def work_file_entry(items):
+    """Entry-point variant: read_ampgen(filename) must give what read_ampgen(text=...) gives."""
+    fails = []
+    for choices in items:
+        sc, sem = build(choices)
+        text = text_of(sc)
+        obs = run_forked(observe_file, text)
+        for s_, d in compare(sem, obs, text):
+            fails.append(("choices-file", {"choices": list(choices)}, s_ + "@filename", d, 1))
+    return {"fails": fails, "outcomes": set(), "traces": len(items)}
 
 
 def work_nomemo(items):
@@ -319,6 +357,9 @@ def run(ctx):
     run_tasks(ctx, work_shapes, [shapes_[i:i + 6] for i in range(0, len(shapes_), 6)])
     ctx.count(states=len(shapes_), transitions=sum(len(x["parts"]) + len(x["tops"]) for x in shapes_))
     ctx.part("expansion-shapes", cases=len(shapes_), complete=True)
+    entry = [ch for ch, nd in items if nd <= 1]
+    run_tasks(ctx, work_file_entry, [entry[i:i + 6] for i in range(0, len(entry), 6)])
+    ctx.part("file-name-entry", scenarios=len(entry))
     small = [ch for ch, nd in items if nd <= 1][: (None if ctx.thorough else 24)]
     run_tasks(ctx, work_nomemo, [small[i:i + 2] for i in range(0, len(small), 2)])
     ctx.count(states=stats["nodes"], transitions=stats["choices"])
